@@ -3,6 +3,7 @@
   (Recovery of rendered scenes depends on the optimiser and is probed, not proved.)
 -/
 import PhotVerif.Model.PsfBook
+import PhotVerif.Gen.PsfTable
 import PhotVerif.Props.C04
 import Mathlib.Algebra.Order.Field.Rat
 import Mathlib.Data.List.Basic
@@ -129,5 +130,19 @@ theorem flags_bits (ny nx fy fx npix : Nat) (xfit yfit flux : Rat) :
 example : groupIds [0, 2, 5] [0, 0, 0] 4 = [1, 1, 2] := by decide +kernel
 -- interleaved membership: sources 0 and 2 are close, 1 is far: ids [1, 2, 1]
 example : groupIds [0, 9, 1] [0, 0, 0] 4 = [1, 2, 1] := by decide +kernel
+
+/-! ### per-source results leave the group-fitting order (table regenerated from photometry.py on every run) -/
+
+/-- TABLE OBLIGATION: every per-source list that `__call__` reads from `_group_results` (npixfit, nmodels) and the PSF-centre
+    indices used by the fit metrics go through `_ungroup`, and `_ungroup` is `_order_by_id ∘ _flatten` indexing with the
+    ungroup indices - so `ungroup_restores_input_order` / `fit_results_in_input_order` apply to them (seed C12-r5 used
+    `_flatten` alone for npixfit) -/
+theorem per_source_results_are_ungrouped :
+    (Gen.PsfTable.groupResultReads.filter fun r => r.1 == "__call__").all (fun r => r.2.2) = true ∧
+    ("__call__", "npixfit", true) ∈ Gen.PsfTable.groupResultReads ∧
+    ("__call__", "nmodels", true) ∈ Gen.PsfTable.groupResultReads ∧
+    ("_calc_fit_metrics", "psfcenter_indices", true) ∈ Gen.PsfTable.groupResultReads ∧
+    Gen.PsfTable.ungroupFlattensThenOrders = true ∧ Gen.PsfTable.orderByIdIndexesWithUngroupIndices = true := by
+  decide
 
 end PhotVerif.C12
